@@ -119,7 +119,10 @@ def main():
                     elif op.get("how") == "chain3":
                         target = target.force_local().partial().monitor_progress()
                     ev["how"] = op.get("how", "plain")
-                    ev["got"] = jsonable(target(arg, fnarg=getattr(mod, op["fnarg"])) if op.get("fnarg") else target(arg))
+                    if op.get("fnarg") and op.get("bind") == "partial":      # the function is handed over through partial()
+                        ev["got"] = jsonable(target.partial(fnarg=getattr(mod, op["fnarg"]))(arg))
+                    else:
+                        ev["got"] = jsonable(target(arg, fnarg=getattr(mod, op["fnarg"])) if op.get("fnarg") else target(arg))
                 except Exception as e:
                     ev["got"] = ["raised", type(e).__name__]
                     ev["exc"] = type(e).__name__
